@@ -12,6 +12,7 @@ func TestSeeds(t *testing.T) {
 		}
 	}
 	frags := []uint16{0, 0x0001, 0x1321, 0x9a62}
+	recRoute.Require(routeRequired()...) // round 6: this stage produces every one of them deterministically
 	run("socks5-addr", func(t *testing.T) {
 		for _, s := range hostileAddrs() {
 			for _, fr := range frags {
@@ -44,6 +45,18 @@ func TestSeeds(t *testing.T) {
 				oracleHTTPServer(t, sels[i], fr, clients[i], origins[i])
 			}
 			oracleHTTPServer(t, sels[i]|4, 0, clients[i], origins[i])
+		}
+	})
+	run("http-origin", func(t *testing.T) {
+		// round 6: hostile origin replies to plain-HTTP proxying; every seed once, every fourth also through the basic-auth
+		// server and with a fragmented client side
+		recHTTPOrigin.Require(originRequired()...)
+		forms, origins := originSeeds()
+		for i := range origins {
+			oracleHTTPOrigin(t, forms[i], 0, origins[i])
+			if i%4 == 0 {
+				oracleHTTPOrigin(t, forms[i]|8, frags[1+i%3], origins[i])
+			}
 		}
 	})
 	run("http-client", func(t *testing.T) {
@@ -98,6 +111,7 @@ func TestSeeds(t *testing.T) {
 			for _, hi := range []uint8{0, 8, 16, 24} {
 				oraclePacket(t, sels[i]|hi, seeds[i])
 			}
+			oraclePacket(t, sels[i]|32|uint8(i%3)<<6, seeds[i]) // round 6: the same datagram in a reused buffer
 		}
 	})
 	run("dns-response", func(t *testing.T) {
